@@ -365,6 +365,30 @@ func (env *Env) fieldAddr(v SV, name string) (ref, off string, ft types.Type) {
 	return
 }
 
+// addrOf: address of an addressable field path
+func (env *Env) addrOf(e ast.Expr) (ref, off string, ft types.Type) {
+	n, ok := e.(*ast.SelectorExpr)
+	if !ok {
+		sfail("addrof: not a field path")
+	}
+	base := env.eval(n.X)
+	if _, isPtr := base.Ty.Underlying().(*types.Pointer); isPtr {
+		return env.fieldAddr(base, n.Sel.Name)
+	}
+	st, ok := base.Ty.Underlying().(*types.Struct)
+	if !ok {
+		sfail("addrof: %s is not a struct", typeStr(base.Ty))
+	}
+	r, o, _ := env.addrOf(n.X)
+	for i := 0; i < st.NumFields(); i++ {
+		if st.Field(i).Name() == n.Sel.Name {
+			return r, add(o, itoa(int64(env.x.vc.ls.fieldOff(st, i)))), st.Field(i).Type()
+		}
+	}
+	sfail("no field %s", n.Sel.Name)
+	return
+}
+
 func (env *Env) index(v SV, i string) SV {
 	x := env.x
 	if v.K == SSeq {
@@ -844,6 +868,17 @@ func (env *Env) callExpr(n *ast.CallExpr) SV {
 	case "written":
 		v := arg(0)
 		return svInt(ghost(env.st, "written:"+x.vc.canon(v.V[1].T)))
+	case "wcalls":
+		v := arg(0)
+		return svInt(ghost(env.st, "wcalls:"+x.vc.canon(v.V[1].T)))
+	case "spos", "ssize":
+		// position in / length of the byte stream a reader value denotes (streams plug-in)
+		v := arg(0)
+		key, ref := streamKey(x, v.Ty, v.V)
+		if fn.Name == "ssize" {
+			return svInt(sx("ssize", ref))
+		}
+		return svInt(ghost(env.st, "spos:"+key))
 	case "inroot", "rooted", "seg", "relsafe":
 		v := arg(0)
 		return svBool(sx(fn.Name, v.V[0].T))
@@ -869,6 +904,14 @@ func (env *Env) callExpr(n *ast.CallExpr) SV {
 		return svBool(sx("priv", v.V[0].T, v.V[1].T, env.int(n.Args[1])))
 	case "isnil":
 		return svBool(eq(arg(0).V[0].T, "0"))
+	case "addrof":
+		// addrof(x.f.g): address of a field path (pointer SV); ptsto(s, x.f.g): the slice s starts there
+		r, o, ft := env.addrOf(n.Args[0])
+		return svOfVal(Val{ic(r), ic(o)}, types.NewPointer(ft))
+	case "ptsto":
+		r, o, _ := env.addrOf(n.Args[1])
+		a := arg(0)
+		return svBool(and(eq(a.V[0].T, r), eq(a.V[1].T, o)))
 	case "ref":
 		return svInt(arg(0).V[0].T)
 	case "off":
